@@ -193,7 +193,8 @@ class Excel_PairTabulation(PairTabulation_AbstractBase):
     pot_dict = {}
     for p in self.potentials:
       k = "{}-{}".format(*sorted([p.speciesA, p.speciesB]))
-      v = p.potentialFunction
+      # As the other pair tabulations do, go through the potential's energy() method
+      v = p.energy
       pot_dict[k] = v
     column_heads = sorted(pot_dict.keys())
     self._populate_worksheet(ws, "r", _r_value_iterator(self), column_heads, pot_dict )
